@@ -4,6 +4,7 @@ use crate::core;
 use crate::ev::{Outcome, Session};
 use crate::mv;
 use crate::rng::Rng;
+use blots_core::functions::BuiltInFunction;
 use blots_core::heap::HeapValue;
 use serde_json::{Value as J, json};
 use std::hash::{Hash, Hasher};
@@ -119,9 +120,112 @@ fn heap_digests(s: &Session) -> Vec<(String, String)> {
     v
 }
 
+/// outputs of a script run by the real CLI, as a JSON object (None when the run failed)
+fn cli_outputs(cli: &str, script: &str, tag: &str) -> Option<serde_json::Map<String, J>> {
+    let path = std::env::temp_dir().join(format!("bvh_c02_{}_{}.blots", std::process::id(), tag));
+    std::fs::write(&path, script).ok()?;
+    let o = std::process::Command::new("timeout").arg("120").arg(cli).arg(&path).stdin(std::process::Stdio::null()).output().ok()?;
+    let _ = std::fs::remove_file(&path);
+    if !o.status.success() { return None; }
+    serde_json::from_slice::<J>(&o.stdout).ok()?.as_object().cloned()
+}
+
+/// "perm" events: statements that do not depend on each other, evaluated in two different orders, must give the same
+/// value each - in one process (fresh sessions) and in two processes of the real CLI (where any process-wide state
+/// left by one evaluation would meet the others in a different order).
+fn permutation_events(seed: u64, thorough: bool, cli: Option<&str>) -> Vec<J> {
+    let mut r = Rng::new(seed ^ 0x51ED);
+    let mut out = vec![];
+    // (a) every spelling of every unit, converted to the first unit of its category
+    let table = crate::c17::export();
+    let mut stmts: Vec<String> = vec![];
+    for u in table["units"].as_array().unwrap() {
+        let cat = u["cat"].as_str().unwrap();
+        let target = table["units"].as_array().unwrap().iter().find(|t| t["cat"] == cat).unwrap()["ids"][0].as_str().unwrap().to_string();
+        for id in u["ids"].as_array().unwrap() {
+            let id = id.as_str().unwrap();
+            if id.contains('"') || id.contains('\\') { continue; }
+            stmts.push(format!("convert(1, \"{}\", \"{}\")", id, target));
+            if thorough || r.chance(1, 4) { stmts.push(format!("convert(2, \"{}\", \"{}\")", target, id)); }
+        }
+    }
+    // (b) built-in calls of C14's pool
+    for e in crate::c14::record(seed + 11, if thorough { 1500 } else { 300 }) {
+        if let Some(src) = e["src"].as_str() { if !src.contains("==?") { stmts.push(src.to_string()); } }
+    }
+    // keep the statements that evaluate (a failing one would end a CLI script early)
+    let stmts: Vec<String> = stmts.into_iter().filter(|st| Session::new().eval(st).is_ok()).collect();
+    for chunk in stmts.chunks(400) {
+        let fwd: Vec<(usize, &String)> = chunk.iter().enumerate().collect();
+        let mut rev = fwd.clone();
+        rev.reverse();
+        let mut shuf = fwd.clone();
+        for i in (1..shuf.len()).rev() { let j = r.below(i as u64 + 1) as usize; shuf.swap(i, j); }
+        let run_inproc = |order: &Vec<(usize, &String)>| -> Vec<(usize, String)> {
+            let s = Session::new();
+            let mut v: Vec<(usize, String)> = order.iter().map(|(i, st)| (*i, concrete(&s.eval(st), &s).to_string())).collect();
+            v.sort();
+            v
+        };
+        let a = run_inproc(&fwd);
+        let mut differing: Vec<J> = vec![];
+        for (name, order) in [("reversed", &rev), ("shuffled", &shuf)] {
+            let b = run_inproc(order);
+            for (x, y) in a.iter().zip(b.iter()) { if x != y { differing.push(json!({"order": name, "where": "in-process", "src": chunk[x.0], "first": x.1, "other": y.1})); } }
+        }
+        if let Some(c) = cli {
+            let script = |order: &Vec<(usize, &String)>| order.iter().map(|(i, st)| format!("output r{} = {}", i, st)).collect::<Vec<_>>().join("\n");
+            let pa = cli_outputs(c, &script(&fwd), "f");
+            for (name, order) in [("reversed", &rev), ("shuffled", &shuf)] {
+                let pb = cli_outputs(c, &script(order), "r");
+                match (&pa, &pb) {
+                    (Some(x), Some(y)) => for (k, v) in x { if y.get(k) != Some(v) {
+                        let i: usize = k[1..].parse().unwrap_or(0);
+                        differing.push(json!({"order": name, "where": "processes", "src": chunk[i], "first": v, "other": y.get(k)}));
+                    } },
+                    _ => differing.push(json!({"order": name, "where": "processes", "src": "<whole script>", "first": pa.is_some(), "other": pb.is_some()})),
+                }
+            }
+        }
+        differing.truncate(6);
+        out.push(json!({"ev":"perm","family":"independent expressions","src": format!("{} ... ({} statements)", chunk[0], chunk.len()), "n": chunk.len(), "differing": differing}));
+    }
+    // (c) independent definitions commute: heap values defined in either order, then used
+    let defs: Vec<(&str, &str)> = vec![("t1", "{n: 2}"), ("t2", "{n: 1}"), ("t3", "[3, [1]]"), ("t4", "[1, {k: \"v\"}]"), ("t5", "\"b\""), ("t6", "\"a\""), ("t7", "x => x + 1"), ("t8", "(x, i?) => x"), ("t9", "{n: 1}"), ("t10", "null")];
+    let names: Vec<String> = BuiltInFunction::all_names().iter().map(|s| s.to_string()).collect();
+    let groups: Vec<Vec<&str>> = vec![vec!["t1", "t2", "t9"], vec!["t2", "t1"], vec!["t3", "t4"], vec!["t4", "t3", "t1"], vec!["t5", "t6"], vec!["t7", "t8"], vec!["t8", "t7", "t1"], vec!["t1", "t10", "t2"], vec!["t6", "t1", "t3", "t7"]];
+    for g in &groups {
+        let mut uses: Vec<String> = vec![];
+        let l = format!("[{}]", g.join(", "));
+        for n in &names {
+            if ["time_now", "print", "random"].contains(&n.as_str()) { continue; }
+            uses.push(format!("{n}({l})"));
+            uses.push(format!("{n}({l}, t7)"));
+            uses.push(format!("{n}({})", g.join(", ")));
+            uses.push(format!("{n}({l}, x => x)"));
+        }
+        uses.push(format!("{l} == {l}"));
+        uses.push(format!("{{...{}}}", g[0]));
+        let order_a: Vec<String> = defs.iter().map(|(n, e)| format!("{n} = {e}")).collect();
+        let mut order_b = order_a.clone();
+        order_b.reverse();
+        let run = |order: &Vec<String>| -> Vec<String> {
+            let s = Session::new();
+            for d in order { let _ = s.eval(d); }
+            uses.iter().map(|u| { let o = s.eval(u); concrete(&o, &s).to_string() }).collect()
+        };
+        let (a, b) = (run(&order_a), run(&order_b));
+        let mut differing: Vec<J> = vec![];
+        for (i, (x, y)) in a.iter().zip(b.iter()).enumerate() { if x != y { differing.push(json!({"order":"definitions reversed","where":"in-process","src": uses[i], "first": x, "other": y})); } }
+        differing.truncate(6);
+        out.push(json!({"ev":"perm","family":"independent definitions","src": format!("{l} through every built-in"), "n": uses.len(), "differing": differing}));
+    }
+    out
+}
+
 pub fn record(seed: u64, n: usize, cli: Option<&str>) -> Vec<J> {
     let mut r = Rng::new(seed);
-    let mut out = vec![];
+    let mut out = permutation_events(seed, n > 500, cli);
     // programs: random sessions in the statement vocabulary of C03, calls of C14, broadcasts of C11
     let c14 = crate::c14::record(seed + 1, n);
     let c11 = crate::c11::record(seed + 2, n);
